@@ -691,6 +691,12 @@ class ExprMixin(ExecBase):
                 a = b = None
             finally:
                 self.spec -= 1
+            if a is not None and b.ty == PYOBJ and getattr(b.t, "kind", None) in ("emptylist", "emptyset", "emptydict"):
+                inner = a.ty.inner if isinstance(a.ty, Opt) else a.ty
+                if isinstance(inner, (List, Set, Dict)):
+                    # `xs or []`: xs itself when it is there and not empty, else a new empty container
+                    av = T.opt_val(a) if isinstance(a.ty, Opt) else a
+                    return [(st, V(inner, z3.If(self.truthy(st, a), av.t, self.empty_container(inner).t)))]
             if a is not None and a.ty != BOOL:
                 target = b.ty
                 ca = T.coerce(a, target) if not isinstance(a.ty, Opt) else (T.opt_val(a) if a.ty.inner == target else None)
